@@ -284,7 +284,7 @@ def check_range(W, rec, L, h, supply, bs, method, ifrange=None):
         body = [b""]
         for i in range(0, L, bs):
             body += [res[i:i + bs], b""]
-    elif supply == "list":
+    elif supply in ("list", "list-noauto"):
         body = [res[i:i + bs] for i in range(0, L, bs)]
     elif supply == "liststr":
         # the body given as text items; Range / Content-Range positions count bytes of the encoded representation
@@ -299,7 +299,17 @@ def check_range(W, rec, L, h, supply, bs, method, ifrange=None):
     else:
         spy = NonSeek(res)
         body = FileWrapper(spy, bs)
-    r = Response(body, direct_passthrough=supply.startswith("fw"))
+    if supply == "list-noauto":
+        # a response class that does not want Content-Length computed for ordinary bodies, with the complete length
+        # preset (as send_file does): a 206 still has to announce the length of the part
+        class NoAuto(Response):
+            automatically_set_content_length = False
+
+        r = NoAuto(body)
+        if bs % 2:
+            r.content_length = L
+    else:
+        r = Response(body, direct_passthrough=supply.startswith("fw"))
     headers = {"Range": h} if h else {}
     etag_ok = True
     if ifrange is not None:
@@ -457,6 +467,8 @@ def run(shard, rec, rng):
                 if n % of == idx:
                     with rec.guard({"L": L, "Range": h, "supply": "liststr"}, "C11"):
                         check_range(W, rec, L, h, "liststr", bs, "GET")
+                    with rec.guard({"L": L, "Range": h, "supply": "list-noauto"}, "C11"):
+                        check_range(W, rec, L, h, "list-noauto", bs, "GET")
             for ifr in IFR[1:]:
                 n += 1
                 if n % of == idx:
